@@ -157,6 +157,13 @@ def _polygon(ctx):
     loops = for_loops(fr, cfg, tr)
     ok = False
     why = 'vertex loop not recognised'
+    if len(loops) > 1:
+        # other loops of the constructor (validating the radii, logging) are not the vertex loop: that is the one that builds
+        # and stores the edges
+        vl = [d for d in loops if any(bi in d['loop']['body'] and call_matches(tt, 'Line2::new', 'Vec::<T, A>::push')
+                                      for bi, tt in fr.calls())]
+        if len(vl) == 1:
+            loops = vl
     if len(loops) == 1:
         d = loops[0]
         names = d['chain']
